@@ -123,9 +123,27 @@ number of batches used: {batch}\t3.614838e+00\t8.719708e+01
 }
 
 
+def _with_hole(block):
+    '''The same table as Tripoli-4 prints it without its '-a' option when the
+    score of a middle row is zero: the row is not there.'''
+    lines = block.splitlines(True)
+    rows = [n for n, line in enumerate(lines)
+            if line[:1] in '0123456789(' and 'e+0' in line or 'e-0' in line]
+    rows = [n for n in rows if not lines[n].startswith('number')]
+    if len(rows) < 3:
+        return None
+    del lines[rows[1]]
+    return ''.join(lines)
+
+
 def listings():
     out = []
+    blocks = dict(BLOCKS)
     for name, (response, block) in sorted(BLOCKS.items()):
+        holed = _with_hole(block)
+        if holed is not None:
+            blocks[name + '-with-a-hole'] = (response, holed)
+    for name, (response, block) in sorted(blocks.items()):
         text = HEAD
         for batch, time in ((10, 126), (20, 253)):
             text += EDITION_HEAD.format(batch=batch, response=response)
